@@ -28,27 +28,36 @@ def run_jobs(jobs):
     res = V.verify_many(jobs, nproc=NPROC)
     again = []
     for i, r in enumerate(res):
-        flaky = r.get('status') in ('crash',) and 'timeout' in (r.get('error') or '').lower()
-        flaky = flaky or (r.get('status') == 'ok' and any(o.get('status') == 'undecided' for o in r.get('obligations', [])))
-        flaky = flaky or (r.get('status') == 'crash' and 'died' in (r.get('error') or '').lower())
-        if flaky:
+        obs = r.get('obligations', [])
+        if r.get('status') == 'ok' and any(o.get('status') == 'undecided' for o in obs) and not any(o.get('status') == 'refuted' for o in obs):
+            again.append(i)          # a unit with a refuted obligation is broken anyway: nothing to confirm
+        elif r.get('status') == 'crash' and 'died' in (r.get('error') or '').lower():
             again.append(i)
     if again and not os.environ.get('VERIF_NO_CONFIRM'):
         jobs2 = []
         for i in again:
             (q, case, regf), opts = jobs[i]
             o2 = dict(opts)
-            o2['proof_timeout_ms'] = int(opts.get('proof_timeout_ms', 40000)) * 3
+            o2['proof_timeout_ms'] = int(opts.get('proof_timeout_ms', 40000)) * 2
             o2['retries'] = False
+            if res[i].get('status') == 'ok':
+                o2['recheck'] = {(o['id'], o['ordinal']) for o in res[i]['obligations'] if o.get('status') == 'undecided'}
             jobs2.append(((q, case, regf), o2))
         res2 = V.verify_many(jobs2, nproc=max(1, min(4, NPROC // 3)))
         for i, r2 in zip(again, res2):
-            n_open1 = sum(1 for o in res[i].get('obligations', []) if o.get('status') == 'undecided') if res[i].get('status') == 'ok' else 10 ** 6
-            n_open2 = sum(1 for o in r2.get('obligations', []) if o.get('status') == 'undecided') if r2.get('status') == 'ok' else 10 ** 6
-            refuted2 = any(o.get('status') == 'refuted' for o in r2.get('obligations', []))
-            if r2.get('status') == 'ok' and (n_open2 < n_open1 or refuted2):
+            if r2.get('status') != 'ok':
+                continue
+            if res[i].get('status') != 'ok':
                 r2['confirmation_run'] = True
                 res[i] = r2
+                continue
+            second = {(o['id'], o['ordinal']): o for o in r2.get('obligations', [])}
+            for o in res[i]['obligations']:
+                if o.get('status') == 'undecided':
+                    o2 = second.get((o['id'], o['ordinal']))
+                    if o2 is not None and o2.get('status') in ('discharged', 'refuted') and o2.get('result') != 'skipped':
+                        o.update(status=o2['status'], result=o2.get('result'), reason=o2.get('reason', ''), model=o2.get('model'),
+                                 backend=(o2.get('backend') or '') + ' [confirmation run]', seconds=round(o.get('seconds', 0) + o2.get('seconds', 0), 3))
     return res
 
 
